@@ -171,7 +171,7 @@ def judge_region(src_els, out_els, w, join, cap, ml, tol, nq, seed):
     x0, x1 = min(p[0] for p in allp) - infl, max(p[0] for p in allp) + infl
     y0, y1 = min(p[1] for p in allp) - infl, max(p[1] for p in allp) + infl
     rng = random.Random(seed)
-    radius = [float('inf') if len(s) == 2 else min_curv_radius(s) for s in src]
+    radius = [float('inf') if len(s) == 2 else (0.0 if tight_points([s], 1.05 * hw) else min_curv_radius(s)) for s in src]
     round_all = (join == 2 and cap == 2)
     segsF = [[(Fr(p[0]), Fr(p[1])) for p in s] for s in O.path_segments(out_els)]
     ext = max(abs(x0), abs(x1), abs(y0), abs(y1), 1.0)
@@ -190,6 +190,31 @@ def judge_region(src_els, out_els, w, join, cap, ml, tol, nq, seed):
         r = rng.choice([rng.uniform(0, hw - 3 * tol) if hw > 3 * tol else 0.0, bound + 3 * tol + rng.uniform(0.01, 0.3) * w, rng.uniform(0, bound + 4 * tol)])
         qs.append((p[0] + r * math.cos(a), p[1] + r * math.sin(a)))
     decided = 0
+    # every boundary point of the filled region is a limit of covered points: sample the outline itself; where a sample is farther from the
+    # source than the style bound, the two points next to it (left and right of the outline) decide
+    out_segs = O.path_segments(out_els)
+    step = max(tol, 1e-7 * ext)
+    for pts in out_segs:
+        for t in (0.0, 0.25, 0.5, 0.75):
+            x = bez_eval(pts, t)
+            d = min(seg_nearest(x, s)[0] for s in src)
+            if d <= bound + 3 * tol + step:
+                continue
+            x2 = bez_eval(pts, min(1.0, t + 1e-3))
+            tx, ty = x2[0] - x[0], x2[1] - x[1]
+            ln = math.hypot(tx, ty)
+            if ln == 0:
+                continue
+            for sgn in (1.0, -1.0):
+                q = (x[0] - sgn * ty / ln * step, x[1] + sgn * tx / ln * step)
+                wn = winding_outline(segsF, q, eta)
+                if wn is None:
+                    wn = winding_outline(segsF, q, -eta * 3)
+                if wn:
+                    dq = min(seg_nearest(q, s)[0] for s in src)
+                    if dq > bound + 3 * tol:
+                        return (f'point {q} next to the outline is at distance {dq:.6g} > style bound {bound:.6g} (+3 tol) from the path but the outline '
+                                f'has winding {wn} there')
     for q in qs:
         near = [seg_nearest(q, s) for s in src]
         d = min(n[0] for n in near)
@@ -326,6 +351,15 @@ def wild_cubics(rng):
             a = (p[0] + 4, p[1] + 4)
             b = (p[0], p[1] + 4)
             e = (p[0] + 4, p[1] + rng.uniform(-0.2, 0.2))
+        elif r < 0.75:   # retracted handle(s): a control point coincides with its end point (corner-to-smooth segments)
+            a, b, e = [(rng.uniform(-6, 6), rng.uniform(-6, 6)) for _ in range(3)]
+            which = rng.random()
+            if which < 0.45:
+                a = p
+            elif which < 0.9:
+                b = e
+            else:
+                a, b = p, e
         else:
             a, b, e = [(rng.uniform(-6, 6), rng.uniform(-6, 6)) for _ in range(3)]
         els.append(('C', a, b, e))
@@ -341,10 +375,15 @@ def generate(rng, tier):
     for k in range(n):
         kind = ['poly', 'poly-sharp', 'smooth', 'wild'][k % 4]
         els = {'poly': lambda: polyline(rng, False), 'poly-sharp': lambda: polyline(rng, True), 'smooth': lambda: smooth_chain(rng), 'wild': lambda: wild_cubics(rng)}[kind]()
+        if k % 8 == 7:
+            # corner-to-smooth cubics with a retracted handle, thin strokes (the regularisation of the zero-length control arm decides the outline)
+            kind = 'retracted'
+            p0, c, e = [(rng.uniform(-6, 6), rng.uniform(-6, 6)) for _ in range(3)]
+            els = [('M', p0), ('C', p0, c, e)] if rng.random() < 0.6 else [('M', p0), ('C', c, e, e)]
         join, cap = (k // 4) % 3, (k // 12) % 3
         if rng.random() < 0.3:
             join, cap = rng.randint(0, 2), rng.randint(0, 2)
-        w = rng.choice([0.05, 0.3, 1.0, 2.5, 10.0]) if kind != 'smooth' else rng.choice([0.05, 0.3, 1.0, 2.0])
+        w = rng.choice([0.05, 0.3]) if kind == 'retracted' else rng.choice([0.05, 0.3, 1.0, 2.5, 10.0]) if kind != 'smooth' else rng.choice([0.05, 0.3, 1.0, 2.0])
         tol = 10.0 ** rng.uniform(-3, math.log10(0.5))
         if tol > w / 8:
             tol = max(1e-3, w / 8)
@@ -354,3 +393,76 @@ def generate(rng, tier):
             pat = [rng.choice([0.5, 1.0, 2.5]) for _ in range(rng.choice([1, 2, 4]))]
             off = rng.uniform(0, 3)
         yield region(els, w, join, cap, ml, off, pat, tol, nq, rng.randrange(1 << 30), f'{kind}-j{join}c{cap}' + ('-dash' if pat else ''))
+
+
+# ------------------------------------------------------------------ known finding: tight curvature
+
+def tight_points(src, hw):
+    """sample points of curved source segments where the radius of curvature is below the half width (incl. cusps: speed ~ 0)"""
+    pts = []
+    for seg in src:
+        if len(seg) == 2:
+            continue
+        n = len(seg) - 1
+        d1 = [((b[0] - a[0]) * n, (b[1] - a[1]) * n) for a, b in zip(seg, seg[1:])]
+        d2 = [((b[0] - a[0]) * (n - 1), (b[1] - a[1]) * (n - 1)) for a, b in zip(d1, d1[1:])]
+        vmax = max(math.hypot(*v) for v in d1) or 1.0
+
+        def rad(t):
+            v = bez_eval(d1, t) if len(d1) > 1 else d1[0]
+            a = bez_eval(d2, t) if len(d2) > 1 else d2[0]
+            sp = math.hypot(*v)
+            cr = abs(v[0] * a[1] - v[1] * a[0])
+            if sp < 1e-3 * vmax:
+                return 0.0
+            return sp ** 3 / cr if cr > 0 else float('inf')
+        N = 512
+        rs = [rad(i / N) for i in range(N + 1)]
+        for i in range(N + 1):
+            r = rs[i]
+            if r >= hw and rs[max(0, i - 1)] >= r <= rs[min(N, i + 1)]:
+                # local minimum of the sampled radius: refine (the radius dips sharply next to a near-cusp)
+                lo, hi = max(0, i - 1) / N, min(N, i + 1) / N
+                for _ in range(3):
+                    sub = [lo + (hi - lo) * k / 64 for k in range(65)]
+                    vals = [rad(t) for t in sub]
+                    j = vals.index(min(vals))
+                    lo, hi = sub[max(0, j - 1)], sub[min(64, j + 1)]
+                    r = vals[j]
+            if r < hw:
+                pts.append(bez_eval(seg, i / N))
+    return pts
+
+
+def tight_curvature(case, outs, verdict):
+    """root cause: the source contains a curved segment with a point where the radius of curvature is smaller than half the stroke width (cusp,
+    loop, tight turn).  There the parallel curve has its own cusps (evolute crossing); kurbo strokes by offsetting + regularising + curve fitting
+    and documents that this is not the rigorous parallel sweep: around such points the outline can run up to several half widths outside the ideal
+    region (a spike appears for particular tolerances) and the inverted piece of the offset (winding -1) can cancel the +1 of neighbouring
+    pieces.  A failing point belongs to the class iff it is within max(8 half widths + 3 tol, half the segment's diameter, a fifth of the extent of the whole source) of a curved source segment that has such a point (the spikes at near-cusps do not scale with the width)."""
+    import re
+    from .shapes_common import parse_els
+    if verdict.startswith('CORR') or 'non-finite' in verdict or 'contour' in verdict:
+        return False
+    m = re.search(r'point \(([-0-9.e+]+), ([-0-9.e+]+)\)', verdict)
+    if not m:
+        return False
+    q = (float(m.group(1)), float(m.group(2)))
+    els, w, join, cap, ml, off, pat, tol = case.meta['args'][:8]
+    src_els = [tuple([e[0]] + [tuple(p) for p in e[1:]]) for e in els]
+    if pat:
+        d = outs['I'][1]
+        src_els = parse_els(d[3:] if d.startswith('ok ') else d)
+    hw = w / 2
+    segs = O.path_segments(src_els)
+    allp = [p for seg in segs for p in seg]
+    whole = max(max(p[0] for p in allp) - min(p[0] for p in allp), max(p[1] for p in allp) - min(p[1] for p in allp))
+    for seg in segs:
+        if len(seg) > 2 and tight_points([seg], hw):
+            diam = max(math.hypot(a[0] - b[0], a[1] - b[1]) for a in seg for b in seg)
+            if seg_nearest(q, seg)[0] <= max(8 * hw + 3 * tol, 0.5 * diam, 0.2 * whole):
+                return True
+    return False
+
+
+KNOWN_CLASSES = {'tight_curvature': tight_curvature}
